@@ -252,7 +252,7 @@ MUTANTS = [
  dict(id="C12", name="format_keywords_saved_as_bare_symbols", edits=[(PC, "        if(!strcmp(val, reserved[r]))\n            val = NULL;", "        if(false)\n            val = NULL;")]),
  dict(id="C06", name="bundle_written_without_its_zero_word", edits=[(TL, "        ring_write(ring,msg,len+tail);", "        ring_write(ring,msg,len);")]),
  dict(id="C06", name="bundle_read_without_its_zero_word", edits=[(TL, "    ring_read(ring, read_buffer, len+tail, lookahead);", "    ring_read(ring, read_buffer, len, lookahead);")]),
- dict(id="C13", name="self_enabler_scanned_from_itself", edits=[(SF, "        if(enabled_by && abs != orig_portname && abs != scanned_port)\n", "        if(enabled_by && abs != orig_portname)\n")]),
+ dict(id="C13", name="self_enabler_scanned_from_itself", edits=[(SF, "        if(enabled_by && abs != orig_portname && abs != scanned_port)\n", "        if(enabled_by && abs != orig_portname)\n")], expect=0),   # benign since 41964a8: the set of ports already followed stops the recursion that this guard used to stop
  dict(id="C12", name="enabling_port_walked_three_characters_in", edits=[(PC, "                                               + (relative_to_parent ? 3 : 0);", "                                               + 3;")]),
  dict(id="C13", name="array_name_completed_to_longer_sibling", edits=[(PC, "           port.name[path_len] == '#')\n            return &port;", "           port.name[path_len] == '#' && false)\n            return &port;")]),
  dict(id="C12", name="hashed_guess_verified_by_prefix", edits=[(PC, "               msg[fixed[i].length()])\n                return false;", "               msg[fixed[i].length()] && false)\n                return false;")]),
